@@ -117,10 +117,15 @@ theorem rewrite_arms_agree (ty : TyAbs) (g : Groups) : firstRW ty g expRewrite =
   | single t => exact rewrite_arms_agree_single t (mem_allJT t) fmt en cn sub num str arr obj rf
   | multi a b c => exact rewrite_arms_agree_multi a b c fmt en cn sub num str arr obj rf
 
+/-- the guard of arm 0: a two-element type list with `null` -/
+def nullableFires : TyAbs → Bool
+  | .multi b _ _ => b
+  | _ => false
+
 theorem arm0_guard (ty : TyAbs) (g : Groups) :
     cGuard ⟨.vec, .any, .any, .any, .any, .any, .any, .any, .any, .any, some .twoWithNull⟩ ty g =
-      some (match ty with | .multi b _ _ => b | _ => false) := by
-  cases ty <;> simp [cGuard, itB, fpB, guardKB, andO]
+      some (nullableFires ty) := by
+  cases ty <;> simp [cGuard, itB, fpB, guardKB, andO, nullableFires]
 
 theorem expectedArms_split : expectedArms =
     [⟨.vec, .any, .any, .any, .any, .any, .any, .any, .any, .any, some .twoWithNull⟩] ++ (expTyped ++ expRewrite.map (·.1)) := by
@@ -132,7 +137,7 @@ theorem expectedArms_split : expectedArms =
     arm 21 + the kind `armsRewrite` takes (`armsRewrite_is_rwModel`) -/
 theorem source_first_match (kvs : Kvs) (hb : tyOf kvs ≠ .bad) :
     srcFirst (absTy (tyOf kvs)) (groupsOf kvs) (dispatchArms.map compact) 0 =
-      some (if (match absTy (tyOf kvs) with | .multi b _ _ => b | _ => false) then 0
+      some (if nullableFires (absTy (tyOf kvs)) then 0
             else match firstTrue ((typedArms kvs (isSingle (tyOf kvs)) (isUntyped (tyOf kvs)) (isOne (tyOf kvs))).map (·.1)) 1 with
               | some k => k
               | none => 21 + rwIdx (rwModel (absTy (tyOf kvs)) (groupsOf kvs))) := by
@@ -141,7 +146,7 @@ theorem source_first_match (kvs : Kvs) (hb : tyOf kvs ≠ .bad) :
   change expTyped.map _ = _ at hta
   rw [expectedArms_split]
   simp only [List.singleton_append, srcFirst, arm0_guard]
-  cases h0 : (match absTy (tyOf kvs) with | .multi b _ _ => b | _ => false) with
+  cases h0 : nullableFires (absTy (tyOf kvs)) with
   | true => simp
   | false =>
     simp only [Bool.false_eq_true, if_false]
